@@ -176,7 +176,7 @@ class PieceNode:
             partial = pathnode.get_part(loc)
             val = self._find_matches(filemap, paths[1:], data + partial)
             if val:
-                dest_path = os.path.join(self.dest, pathnode.full)
+                dest_path = _contained(self.dest, pathnode.full)
                 copypath(loc, dest_path)
                 return val
         return False
@@ -386,7 +386,7 @@ class Metadata(CbMixin, ProgMixin):
                     else:
                         matched = True
                     if matched:
-                        dest_path = os.path.join(dest, entry["full"])
+                        dest_path = _contained(dest, entry["full"])
                         copypath(path, dest_path)
                         self._update()
                         self.cb(path, dest_path, self.num_pieces)
@@ -553,6 +553,34 @@ class Assembler(CbMixin):
                     meta = Metadata(path)
                     metafiles.append(meta)
         return metafiles
+
+
+def _contained(dest: str, relpath: str) -> str:
+    """
+    Join a path taken from a metafile to the destination directory.
+
+    Parameters
+    ----------
+    dest : str
+        the destination directory
+    relpath : str
+        the path the metafile assigns to a file
+
+    Returns
+    -------
+    str
+        absolute path below the destination directory
+
+    Raises
+    ------
+    ValueError
+        the joined path would lie outside of the destination directory
+    """
+    root = os.path.realpath(dest)
+    full = os.path.realpath(os.path.join(root, relpath))
+    if full == root or os.path.commonpath([root, full]) != root:
+        raise ValueError(f"{relpath} is not inside of {dest}")
+    return full
 
 
 def _index_contents(contents: list, filenames: set) -> dict:
